@@ -446,6 +446,34 @@ prop("C12",
      note="trusts the H1 override hook to select the compile-time paths the switches name",
      design_ref="DESIGN.md#c12")
 
+
+# ----------------------------------------------------------------------------- C13 (back-end selection)
+def c13_units(tier):
+    n = scale(tier, 3000, 100000)
+    return [Unit("c13", ["c13.cpp", "tramp.S"], SHIPPED, cases=n, shards=10 if tier == "quick" else 16, args=["--vec128", "1", "--vec256", "1"]),
+            Unit("c13-novec256", ["c13.cpp", "tramp.S"], NOVEC256, cases=n, shards=3 if tier == "quick" else 16, args=["--vec128", "1", "--vec256", "0"]),
+            Unit("c13-nosimd", ["c13.cpp", "tramp.S"], NOSIMD, cases=n, shards=3 if tier == "quick" else 16, args=["--vec128", "0", "--vec256", "0"])]
+
+prop("C13",
+     units=c13_units,
+     level="exploration",
+     rule=("cases = 2-8 calls of the six init functions and the two internal probes, each through an assembly trampoline that loads "
+           "generated values into every caller-saved general register but the argument and scribbles 512 bytes of stack below; "
+           "40 % on the real CPU (ground truth from an independent probe: max leaf, leaf 1, OSXSAVE, XGETBV, leaf 7 sub-leaf 0), "
+           "60 % on a generated CPU model answered through the CPUID/XGETBV hook (max basic leaf 1..0x20, SSE/SSE2/OSXSAVE/AVX "
+           "bits, leaf-7 sub-leaf table with max sub-leaf 0..2, Intel vs AMD out-of-range-leaf behaviour, XCR0 values, and the "
+           "garbage ECX delivered whenever plain __cpuid is used); oracle: selected back end (vtable identity / parallel vtable + "
+           "size) == widest compiled-in back end the (real or modelled) CPU and OS support, advertised parallel size matches, "
+           "XGETBV never executed without OSXSAVE, identical on every call; for the shipped, VEC256-less and SIMD-less builds; "
+           "non-trivial = real-CPU case with non-zero ECX garbage, or a model that is not 'everything present'"),
+     assumptions=BUILD_ASSUME[:0] + ["SSE OS support is architectural on x86-64 and is not modelled", "modelled CPUs decide selection logic only; instruction execution happens on the host"],
+     technique="property-based testing (rapidcheck): generated register/stack garbage on the real CPU + generated CPU models through a CPUID hook",
+     text=("Generated calling contexts on the real CPU show whether the choice depends on register or stack garbage; generated CPU "
+           "models (the host has every feature, so only a model separates the feature bits) show whether the choice is the widest "
+           "supported one and never an unsupported one. Sampling of contexts and models."),
+     note="trusts the H3 hook to put the model in place of CPUID/XGETBV and the expected-selection function written from the Intel SDM rules",
+     design_ref="DESIGN.md#c13")
+
 # ----------------------------------------------------------------------------- generic entry points
 def run(pid, tier, seed, replay):
     p = PROPS[pid]
